@@ -192,7 +192,9 @@ PlainDec(s) ==
   IN [ok |-> ok, neg |-> sg /\ s[1] = 45, ds |-> [i \in 1..Len(ip \o fp) |-> (ip \o fp)[i] - 48],
       e10 |-> (IF esg /\ expo[1] = 45 THEN 0 - ev ELSE ev) - Len(fp)]
 FloatAlphabet == (48..57) \cup {43, 45, 46, 95} \cup {101, 69, 120, 88, 112, 80, 105, 73, 110, 78, 102, 70, 116, 84, 121, 89, 97, 65}
-StrNotNumber(s) == s = <<>> \/ (\E i \in 1..Len(s) : ~(s[i] \in FloatAlphabet)) \/ s \in {<<120>>, <<101>>, <<46>>, <<45>>, <<43>>}
+\* (a hexadecimal float needs a p exponent: without one the text is no float spelling)
+StrNotNumber(s) == \/ s = <<>> \/ (\E i \in 1..Len(s) : ~(s[i] \in FloatAlphabet)) \/ s \in {<<120>>, <<101>>, <<46>>, <<45>>, <<43>>}
+                   \/ ((\E i \in 1..Len(s) : s[i] \in {120, 88}) /\ ~(\E i \in 1..Len(s) : s[i] \in {112, 80}))
 StrNumKnown(s) == PlainDec(s).ok \/ StrNotNumber(s)
 StrNum(s) == LET d == PlainDec(s) IN IF d.ok THEN FFromDecimal(d.neg, d.ds, d.e10) ELSE FZero(FALSE)
 \* float -> int64 by truncation (only values below 2^53 are used)
